@@ -46,7 +46,7 @@ RespOK(e, exp) ==
               /\ got.view.gen = exp.gen /\ got.hgen = exp.gen /\ got.view.metagen = 1 /\ got.hmetagen = 1
               /\ got.view.md5 = exp.md5 /\ got.view.size = exp.size
          [] e.ev = "ResumablePut" -> exp.persisted > 0 => got.persisted = exp.persisted
-         [] e.ev = "GetMedia" -> /\ got.body = exp.body /\ got.hgen = exp.view.gen /\ got.hmetagen = exp.view.metagen
+         [] e.ev = "GetMedia" -> /\ ("amb" \in DOMAIN exp \/ got.body = exp.body) /\ got.henc = exp.enc /\ got.hgen = exp.view.gen /\ got.hmetagen = exp.view.metagen
                                  /\ got.hctype = exp.view.attrs.ct
          [] e.ev \in {"GetMeta", "Patch"} -> ViewOK(got.view, exp.view)
          [] e.ev = "Copy" -> /\ ViewOK(got.view, exp.view) /\ got.done
